@@ -90,7 +90,7 @@ async fn run_op(s: &mut Session, t: &[&str]) -> Result<(), String> {
     match t {
         ["get", f] => {
             let f = filter(f)?;
-            go!(Get, |b| b.filter(f).finish())
+            go!(Get, |b| b.filter(f)?.finish())
         }
         ["get-config", d, f] => {
             let (d, f) = (ds(d)?, filter(f)?);
@@ -745,7 +745,8 @@ fn gen_cases(opts: &Opts, rng: &mut Rng) -> Vec<String> {
         ops.push(format!("copy-config {d} d:running"));
         ops.push(format!("copy-config candidate d:{d}"));
         ops.push(format!("validate d:{d}"));
-        if d != "running" {
+        if d == "startup" {
+            // <running/> is never deletable; <candidate/> is refused by the builder (RFC 6241 8.7.5.1)
             ops.push(format!("delete-config d:{d}"));
         }
     }
@@ -975,9 +976,10 @@ fn run_agent(case: &str, cfg: &str, sink: &mut Sink) {
         Ok(e) => e.to_string(),
         Err(e) => return bad(sink, format!("expression does not parse: {e}")),
     };
-    // the reader keeps the raw span of <name> (references unexpanded): that span *is* the name
+    // the reader resolves the references in <name> (since the `fix:` commit for policy names), so
+    // the installed policy is known under the same name the evaluated map uses
     let name_raw = name.replace('&', "&amp;").replace('<', "&lt;");
-    let name_used = if inst.is_some() { name_raw.clone() } else { name.clone() };
+    let name_used = name.clone();
     if inst.is_some() && (name_used.trim() != name_used || name_used.is_empty()) {
         sink.count("agent.skipped-installed-name-with-edge-whitespace");
         return;
